@@ -87,6 +87,17 @@ def _one_refactor(args):
                 with open(p, "w", encoding="utf-8") as f:
                     f.write(ast.unparse(ast.parse(src)) + "\n")
             desc = "whole package re-emitted through ast.unparse (full reformat, comments dropped)"
+        elif spec == "ALPHA":
+            import glob
+            from .refactors import alpha_rename_source
+            for p in glob.glob(os.path.join(d, "graphtage", "*.py")):
+                with open(p, encoding="utf-8") as f:
+                    src = f.read()
+                out = alpha_rename_source(src)
+                compile(out, p, "exec")
+                with open(p, "w", encoding="utf-8") as f:
+                    f.write(out)
+            desc = "every local variable of every function renamed (the test suite passes on this copy)"
         else:
             fname, edits, desc, props = spec
             p = os.path.join(d, "graphtage", fname)
@@ -236,7 +247,7 @@ def extend(ctx):
                                  f"reported: {detail} - the checker is broken, not graphtage")
         # behaviour-preserving refactors must not raise an alarm
         from . import refactors
-        rjobs = [(prop, src_root, base, "REFORMAT")] + [(prop, src_root, base, r) for r in refactors.REFACTORS if prop in r[3]]
+        rjobs = [(prop, src_root, base, "REFORMAT"), (prop, src_root, base, "ALPHA")] + [(prop, src_root, base, r) for r in refactors.REFACTORS if prop in r[3]]
         with cf.ProcessPoolExecutor(max_workers=min(16, len(rjobs))) as ex:
             rres = list(ex.map(_one_refactor, rjobs))
         summary["refactors"] = [{"what": d_, "status": st, "detail": det} for st, d_, det in rres]
